@@ -70,7 +70,7 @@ TIE_OF = {'C02': ['C01'], 'C03': ['C09'], 'C04': ['C01'], 'C07': ['C05'], 'C11':
           'C14': ['C05'], 'C16': ['C05', 'C06'], 'C17': ['C17', 'C05', 'C09', 'C10'], 'C15': ['C01']}
 
 
-EXTRA_PROPS = {'C03': ['Pearl.Props.C03b'], 'C01': ['Pearl.Props.EndToEnd']}
+EXTRA_PROPS = {'C03': ['Pearl.Props.C03b'], 'C01': ['Pearl.Props.EndToEnd'], 'C06': ['Pearl.Props.EndToEndCrash']}
 
 
 def prop_modules(prop):
@@ -450,6 +450,8 @@ def judge(res, pdef):
     findings = []
     nomodel = False
     disagreed = False
+    dump_in_flight = False
+    disk_unreliable = False
     for i, (cmd, impl, model, orc) in enumerate(zip(res['script'], res['impl'], res['model'], res['oracle'])):
         c = cmd_of(cmd)
         if c in ('nomodel', 'fault'):
@@ -488,13 +490,23 @@ def judge(res, pdef):
             break
         if c in ('dmgsweep', 'crashsweep', 'flipsweep', 'faultsweep', 'cancelsweep', 'toolsweep', 'conc', 'killcheck') and impl.startswith('sweep ok'):
             impl = 'sweep ok'      # the count of damaged copies is reported, not compared
+        # index-file sizes depend on whether a background dump (started by a close / rotation / explicit request) ran
+        # before or after a later delete or write reached the same blob: once such a race was possible (no quiescent
+        # point in between) the byte counts of `fcounts` are not compared any more in this scenario
+        if c in ('close_active', 'close_active_bg', 'force', 'free') or (c == 'w' and impl.endswith('switched')):
+            dump_in_flight = True
+        elif c in ('quiesce', 'settle', 'fcounts', 'trace', 'fstates', 'dirty'):
+            dump_in_flight = False
+        elif c in ('d', 'w', 'restore_active', 'restore_active_bg', 'restart', 'open', 'close', 'dmgsweep', 'flipsweep', 'toolsweep') and dump_in_flight:
+            disk_unreliable = True
         if c == 'fcounts':
             # the one command that stays comparable after `nomodel`: the driver answers it from the proved accounting
             # model (Acct) stepped in lock-step; `fcounts ?` / `disk=?` = the model could not follow (skipped)
             if impl.startswith('fcounts ') and model.startswith('fcounts ') and model != 'fcounts ?' and not disagreed:
                 fi = dict(t.split('=', 1) for t in impl.split()[1:] if '=' in t)
                 fm = dict(t.split('=', 1) for t in model.split()[1:] if '=' in t)
-                diff = [k for k, v in fm.items() if v != '?' and fi.get(k) != v]
+                diff = [k for k, v in fm.items() if v != '?' and fi.get(k) != v
+                        and not (disk_unreliable and k in ('disk', 'dirsum'))]
                 if diff:
                     disagreed = True
                     findings.append(Finding('model-disagreement' if is_p else 'aux-disagreement', res, i,
